@@ -273,6 +273,19 @@ pub fn replay_one(idx: usize, v: &Value, rep: &Report, cnt: &mut Counts, o: &Opt
             let (r, a) = counted(|| FinderBuilder::new().build_forward(&n).find(&h));
             c.check(cnt, "FinderBuilder::build_forward.find", r.map(opt_to_i), wfind);
             c.alloc("FinderBuilder::build_forward.find", a);
+            // an owned finder: only the conversion itself may allocate
+            #[cfg(feature = "alloc")]
+            if let Ok(own) = guard(|| memmem::Finder::new(&n).into_owned()) {
+                let (r, a) = counted(|| own.find(&h));
+                c.check(cnt, "Finder::into_owned().find", r.map(opt_to_i), wfind);
+                c.alloc("Finder::into_owned().find", a);
+                let (r, a) = counted(|| own.as_ref().find(&h));
+                c.check(cnt, "Finder::into_owned().as_ref().find", r.map(opt_to_i), wfind);
+                c.alloc("Finder::into_owned().as_ref().find", a);
+                let (r, a) = counted(|| own.find_iter(&h).next());
+                c.check(cnt, "Finder::into_owned().find_iter().next", r.map(opt_to_i), wfind);
+                c.alloc("Finder::into_owned().find_iter().next", a);
+            }
         }
         if g.cfg {
             // C10: prefilter setting x ranker table
@@ -313,6 +326,18 @@ pub fn replay_one(idx: usize, v: &Value, rep: &Report, cnt: &mut Counts, o: &Opt
             }
             let (r, _) = counted(|| FinderBuilder::new().build_reverse(&n).rfind(&h));
             c.check(cnt, "FinderBuilder::build_reverse.rfind", r.map(opt_to_i), wrfind);
+            #[cfg(feature = "alloc")]
+            if let Ok(own) = guard(|| memmem::FinderRev::new(&n).into_owned()) {
+                let (r, a) = counted(|| own.rfind(&h));
+                c.check(cnt, "FinderRev::into_owned().rfind", r.map(opt_to_i), wrfind);
+                c.alloc("FinderRev::into_owned().rfind", a);
+                let (r, a) = counted(|| own.as_ref().rfind(&h));
+                c.check(cnt, "FinderRev::into_owned().as_ref().rfind", r.map(opt_to_i), wrfind);
+                c.alloc("FinderRev::into_owned().as_ref().rfind", a);
+                let (r, a) = counted(|| own.rfind_iter(&h).next());
+                c.check(cnt, "FinderRev::into_owned().rfind_iter().next", r.map(opt_to_i), wrfind);
+                c.alloc("FinderRev::into_owned().rfind_iter().next", a);
+            }
         }
         if g.iter && (!ns.is_empty() || k == 0) {
             let total = wfwd.len();
